@@ -271,7 +271,26 @@ def reconfigure(rng, sp, d, ids, mc_max):
     if nodes_conf:
         conf["nodes"] = nodes_conf
     if conf:
-        d.config_from_dict(conf)
+        via = rng.choice(["dict", "dict", "yaml", "json"])
+        if via == "dict":
+            d.config_from_dict(conf)
+        else:
+            import json as _json
+            import os
+            import tempfile
+
+            fd, path = tempfile.mkstemp(prefix="twzconf_", suffix="." + via)
+            try:
+                with os.fdopen(fd, "w") as f:
+                    if via == "json":
+                        _json.dump(conf, f)
+                    else:
+                        import yaml
+
+                        yaml.safe_dump(conf, f)
+                getattr(d, "config_from_" + via)(path)
+            finally:
+                os.unlink(path)
     return sp
 
 
